@@ -46,6 +46,7 @@ type Obligation struct {
 	SchedChoice bool            `json:"sched_choice"`
 	MapOrderChoice bool         `json:"map_order_choice"`
 	ReplayAttempts int          `json:"replay_attempts"`
+	ConcreteMem    bool         `json:"concrete_mem"`
 	HashIDs   bool              `json:"hash_ids"`
 	RaceMode  bool              `json:"race_mode"`
 	AllocBudget int64           `json:"alloc_budget"`
@@ -625,7 +626,7 @@ func matchFinding(fs []Finding, prop, obl string, v interp.Violation) *Finding {
 
 func (r *runner) config(o *Obligation, tc *TierCfg, params map[string]int) *interp.Config {
 	cfg := &interp.Config{InitAllow: map[string]bool{}, Replace: o.Replace, TargetPrefix: modPath, MaxSteps: tc.MaxSteps, MaxPaths: tc.MaxPaths,
-		Workers: *workers, SchedChoice: o.SchedChoice, MapOrderChoice: o.MapOrderChoice, HashIDs: o.HashIDs, RaceMode: o.RaceMode, AllocBudget: o.AllocBudget, AllocCap: o.AllocCap, StepsArePanic: o.StepsArePanic, Params: params,
+		Workers: *workers, SchedChoice: o.SchedChoice, MapOrderChoice: o.MapOrderChoice, HashIDs: o.HashIDs, ConcreteMem: o.ConcreteMem, RaceMode: o.RaceMode, AllocBudget: o.AllocBudget, AllocCap: o.AllocCap, StepsArePanic: o.StepsArePanic, Params: params,
 		TimeoutMs: tc.QueryMs, MaxConcretize: tc.MaxConcretize}
 	for _, a := range interp.DefaultInitAllow {
 		cfg.InitAllow[a] = true
